@@ -91,86 +91,62 @@ namespace Harper
 theorem Tiles.single {t : Tok} {p : Nat} (h1 : t.span.start = p) (h2 : p < t.span.stop) :
     Tiles [t] p t.span.stop := ⟨h1, h2, rfl⟩
 
-theorem runGo_tiles_aux (cfg : RunCfg) (hcfg : cfg.dbl = true → cfg.adj = true) (toks : List Tok) :
+/-- `held` = the tokens merged into the run so far: all flagged -/
+theorem runGo_tiles_aux (cfg : RunCfg) (toks : List Tok) :
     (∀ p b, Tiles toks p b → Tiles (unflag (runGo cfg .scan toks)) p b) ∧
-    (∀ s n held p b, Tiles toks p b → s.start < s.stop → Tiles (unflag held.reverse) s.stop p →
-      (cfg.dbl = false → s.stop = p) →
-      Tiles (unflag (runGo cfg (.absorb s n held) toks)) s.start b) ∧
-    (∀ s n held p b, Tiles toks p b → s.start < s.stop → Tiles (unflag held.reverse) s.stop p →
-      cfg.dbl = true →
-      Tiles (unflag (runGo cfg (.skip s n held) toks)) s.start b) := by
+    (∀ s n held p b, Tiles toks p b → s.start < s.stop → unflag held.reverse = [] → s.stop = p →
+      Tiles (unflag (runGo cfg (.absorb s n held) toks)) s.start b) := by
   induction toks with
   | nil =>
-    refine ⟨?_, ?_, ?_⟩
+    refine ⟨?_, ?_⟩
     · intro p b h; simpa [runGo] using h
-    · intro s n held p b h hlt hh _
-      simp only [Tiles] at h; subst h
-      simp only [runGo, unflag_cons_false]
-      exact ⟨rfl, hlt, hh⟩
-    · intro s n held p b h hlt hh _
-      simp only [Tiles] at h; subst h
-      simp only [runGo, unflag_cons_false]
-      exact ⟨rfl, hlt, hh⟩
+    · intro s n held p b h hlt hh hs
+      simp only [Tiles] at h; subst h; subst hs
+      simp only [runGo, unflag_cons_false, hh]
+      exact ⟨rfl, hlt, rfl⟩
   | cons c r ih =>
-    obtain ⟨ih1, ih2, ih3⟩ := ih
+    obtain ⟨ih1, ih2⟩ := ih
     have emit : ∀ (s : Span) (n : Nat) (held : List (Tok × Bool)) (p b : Nat), Tiles (c :: r) p b →
-        s.start < s.stop → Tiles (unflag held.reverse) s.stop p →
+        s.start < s.stop → unflag held.reverse = [] → s.stop = p →
         Tiles (unflag ((⟨s, cfg.mkKind n⟩, false) :: (held.reverse ++ (c, false) :: runGo cfg .scan r)))
           s.start b := by
-      intro s n held p b h hlt hh
+      intro s n held p b h hlt hh hs
       obtain ⟨c1, c2, c3⟩ := h
-      simp only [unflag_cons_false, unflag_append]
-      exact ⟨rfl, hlt, hh.append ⟨c1, c2, ih1 _ _ c3⟩⟩
-    refine ⟨?_, ?_, ?_⟩
+      subst hs
+      simp only [unflag_cons_false, unflag_append, hh, List.nil_append]
+      exact ⟨rfl, hlt, c1, c2, ih1 _ _ c3⟩
+    refine ⟨?_, ?_⟩
     · intro p b h
       obtain ⟨c1, c2, c3⟩ := h
       simp only [runGo]
       split
       · rename_i n _
-        have := ih2 c.span n [] c.span.stop b c3 (by omega) (by simp [Tiles]) (fun _ => rfl)
+        have := ih2 c.span n [] c.span.stop b c3 (by omega) (by simp) rfl
         rw [c1] at this; exact this
       · simp only [unflag_cons_false]
         exact ⟨c1, c2, ih1 _ _ c3⟩
-    · intro s n held p b h hlt hh hdbl
+    · intro s n held p b h hlt hh hs
       simp only [runGo]
       split
-      · exact emit s n held p b h hlt hh
-      · rename_i hcond
-        split
+      · exact emit s n held p b h hlt hh hs
+      · split
         · rename_i m hm
           obtain ⟨c1, c2, c3⟩ := h
-          have hsp : s.stop = p := by
-            cases hadj : cfg.adj
-            · cases hd : cfg.dbl
-              · exact hdbl hd
-              · have := hcfg hd; rw [hadj] at this; cases this
-            · simp [hadj] at hcond; omega
-          subst hsp
-          have hnil := hh.eq_nil
-          split
-          · exact ih3 ⟨s.start, c.span.stop⟩ (n + m) ((c, true) :: held) c.span.stop b c3
-              (by simp; omega) (by simp [hnil, Tiles]) (by assumption)
-          · exact ih2 ⟨s.start, c.span.stop⟩ (n + m) ((c, true) :: held) c.span.stop b c3
-              (by simp; omega) (by simp [hnil, Tiles]) (fun _ => rfl)
-        · exact emit s n held p b h hlt hh
-    · intro s n held p b h hlt hh hd
-      obtain ⟨c1, c2, c3⟩ := h
-      simp only [runGo]
-      refine ih2 s n ((c, false) :: held) c.span.stop b c3 hlt ?_ (fun h => by rw [hd] at h; cases h)
-      simp only [List.reverse_cons, unflag_append, unflag_cons_false, unflag_nil]
-      exact hh.append (Tiles.single c1 c2)
+          exact ih2 ⟨s.start, c.span.stop⟩ (n + m) ((c, true) :: held) c.span.stop b c3
+            (by simp; omega) (by simp [hh]) rfl
+        · exact emit s n held p b h hlt hh hs
 
 theorem condenseSpaces_tiles' (toks : List Tok) (a b : Nat) (h : Tiles toks a b) :
     Tiles (condenseSpaces toks) a b := by
   unfold condenseSpaces
   rw [dropFlagged_eq]
-  exact (runGo_tiles_aux spacesCfg (fun _ => rfl) toks).1 a b h
+  exact (runGo_tiles_aux spacesCfg toks).1 a b h
 
 theorem condenseNewlines_tiles' (toks : List Tok) (a b : Nat) (h : Tiles toks a b) :
     Tiles (condenseNewlines toks) a b := by
   unfold condenseNewlines
   rw [dropFlagged_eq]
-  exact (runGo_tiles_aux newlinesCfg (fun h => by cases h) toks).1 a b h
+  exact (runGo_tiles_aux newlinesCfg toks).1 a b h
 
 theorem map_kind_tiles (f : Tok → Tok) (hf : ∀ t, (f t).span = t.span) (toks : List Tok) (a b : Nat)
     (h : Tiles toks a b) : Tiles (toks.map f) a b := by
